@@ -135,32 +135,56 @@ func (g *DirectedTargetGraph) GetDependants(target model.BuildNode) []model.Buil
 	return g.outEdges[target.GetLabel()]
 }
 
-// GetDescendants returns a list of nodes that are descendants (dependants) of the given node.
-// Recurses via the outEdges of each node.
+// GetDescendants returns the nodes that are descendants (transitive dependants) of the given node, each node once.
 func (g *DirectedTargetGraph) GetDescendants(target model.BuildNode) []model.BuildNode {
+	return uniqueNodes(g.collectDescendants(target))
+}
+
+// collectDescendants recurses via the outEdges of each node. A node that is reachable
+// along several paths is collected once per path.
+func (g *DirectedTargetGraph) collectDescendants(target model.BuildNode) []model.BuildNode {
 	var descendants []model.BuildNode
 	for _, descendant := range g.outEdges[target.GetLabel()] {
 		descendants = append(descendants, descendant)
 
 		// Recurse
-		recursiveDescendants := g.GetDescendants(descendant)
+		recursiveDescendants := g.collectDescendants(descendant)
 		descendants = append(descendants, recursiveDescendants...)
 	}
 	return descendants
 }
 
-// GetAncestors returns a list of nodes that are ancestors (transitive dependencies) of the given node.
-// Recurses via the inEdges of each node.
+// GetAncestors returns the nodes that are ancestors (transitive dependencies) of the given node, each node once.
 func (g *DirectedTargetGraph) GetAncestors(target model.BuildNode) []model.BuildNode {
+	return uniqueNodes(g.collectAncestors(target))
+}
+
+// collectAncestors recurses via the inEdges of each node. A node that is reachable
+// along several paths is collected once per path.
+func (g *DirectedTargetGraph) collectAncestors(target model.BuildNode) []model.BuildNode {
 	var ancestors []model.BuildNode
 	for _, ancestor := range g.inEdges[target.GetLabel()] {
 		ancestors = append(ancestors, ancestor)
 
 		// Recurse
-		recursiveAncestors := g.GetAncestors(ancestor)
+		recursiveAncestors := g.collectAncestors(ancestor)
 		ancestors = append(ancestors, recursiveAncestors...)
 	}
 	return ancestors
+}
+
+// uniqueNodes returns the given nodes without repetitions, keeping the first occurrence of each.
+func uniqueNodes(nodes []model.BuildNode) []model.BuildNode {
+	seen := make(map[model.BuildNode]bool, len(nodes))
+	var unique []model.BuildNode
+	for _, node := range nodes {
+		if seen[node] {
+			continue
+		}
+		seen[node] = true
+		unique = append(unique, node)
+	}
+	return unique
 }
 
 // hasNode checks whether a node exists in the graph.
